@@ -7,6 +7,9 @@ import (
 	"runtime/debug"
 	"strings"
 	"time"
+	simrand "verif.local/sim/simrand"
+	simrandv2 "verif.local/sim/simrandv2"
+	simtime "verif.local/sim/simtime"
 
 	simos "verif.local/sim/simos"
 	"verif.local/sim/simrt"
@@ -81,6 +84,7 @@ func RunCLIHook(p *Program, spec world.Spec, hook func(w *world.World, op *world
 	w := world.New(spec)
 	w.InvariantHook = hook
 	simos.SetWorld(w)
+	setClockAndRand(spec.Knobs.Seed, spec.Args)
 	goroutinesBefore := runtime.NumGoroutine()
 	res := &RunResult{W: w, Exit: -1}
 	func() {
@@ -210,6 +214,8 @@ func ApplyAPI(a Applier, filename string, src []byte) (res APIResult) {
 		}
 	}()
 	simrt.BeginSingle(DefaultBudget)
+	apiSeq++
+	setClockAndRand(apiSeq, []string{filename})
 	out, err := a.Apply(filename, append([]byte(nil), src...))
 	if err != nil {
 		res.IsErr = true
@@ -280,4 +286,26 @@ func InnermostRepoFunc(stack string) string {
 		return reClosure.ReplaceAllString(fn, "")
 	}
 	return "?"
+}
+
+// apiSeq numbers the API calls of the case being evaluated (reset per case, so
+// that a replay sees the same sequence).
+var apiSeq uint64
+
+// setClockAndRand starts the simulated clock and the package-level random
+// generator of a run. Both are a function of the world's seed and of the
+// argument vector, so that the same invocation always sees the same values
+// (replay) while a file processed alone and the same file processed in a group
+// see different ones: up to 48 days apart, odd and even seconds alike.
+func setClockAndRand(seed uint64, args []string) {
+	h := world.Mix(seed, 0x636c6f636b)
+	for _, a := range args {
+		for i := 0; i < len(a); i++ {
+			h = world.Mix(h, uint64(a[i]))
+		}
+		h = world.Mix(h, 0xff)
+	}
+	simtime.SetClock(simtime.Duration(h%(1<<22))*simtime.Second + simtime.Duration(h>>40%1000)*simtime.Millisecond)
+	simrand.SetSeed(int64(h >> 1))
+	simrandv2.SetSeed(h)
 }
